@@ -24,8 +24,20 @@ RULE = ('cases = (statement text, catalog): SELECT / UNION / INSERT / UPDATE / D
         'the CTEs it uses, is mentioned by a step feeding the last one -- checked for all statements), a DML '
         'statement ends with its DML step; plus a '
         'bounded-exhaustive part: every join shape over {table, model, ts-model, sub-select, native query, injected data} up to length 3 '
-        '(thorough: 4) x 4 variants x 12 statement wraps on fixed catalogs. '
-        'non-trivial = >= 3 steps, or a container step, or an exception path; distinct by (catalog, text)')
+        '(thorough: 4) x 4 variants x 12 statement wraps on fixed catalogs; '
+        '(e) per-model USING options (vf/gens/c09_part.py): table-prefixed `alias.partition_size=N` -- bounded-exhaustive: '
+        'every shape over {table, model, sub-select} with >= 1 model up to length 3 (thorough 4; one length more bare) x per-model '
+        'size in {none, 100, 50} x un-prefixed size {none, written last, written first} x 2 variants x {plain, insert, where-in}, '
+        'prefix by alias or by (qualified) model name; and drawn: the text templates of (a) over model-heavy shapes with per-model '
+        'sizes; (f) HISTORIES (vf/gens/c09_hist.py): several statements on ONE QueryPlanner object, each parsed afresh, as '
+        'from_query(tree) or prepare_steps(tree) + execute_steps(values) once or twice -- bounded: all ordered pairs of 19 '
+        'statements carrying the same IN / scalar sub-select in every position the planner plans itself (other integration, '
+        'model / partitioned / time-series join, targets, DML, set operation, CTE body, sub-select in FROM, api integration, a '
+        'table named like an earlier CTE) x 5 forms x fixed catalogs; drawn: 2..4 statements of (a)/(b)/(c)/(d)/(e) whose nested '
+        'selects come from a pool drawn once per history, verbatim repeats, tables named like an earlier CTE, constants turned into '
+        'placeholders; every plan a history emits is judged like a single plan (also after a refused statement). '
+        'non-trivial = >= 3 steps, or a container step, or an exception path (history: a later plan with >= 2 steps); distinct '
+        'by (catalog, text) / (catalog, operations)')
 ASSUMPTIONS = ['"the last step produces the answer" is read as: the last step is the single sink of the reference graph '
                '(every other step is consumed, directly or transitively, by it) and a DML statement ends with its DML '
                'step; statements with a WITH clause are exempt from the sink clause (CTE bodies are planned eagerly and may '
@@ -34,7 +46,14 @@ ASSUMPTIONS = ['"the last step produces the answer" is read as: the last step is
                'references are collected by reflection over vars() of steps and embedded trees (vf.oracles.struct.walk), '
                'not by the library\'s query_traversal; a step object held by identity (DML steps) counts as a reference',
                'catalog encodings are those the repository\'s own planner tests use; legacy dotted metadata keys are '
-               'not generated']
+               'not generated',
+               '"every emitted plan" includes the plans a planner object emits after it has planned other statements '
+               '(from_query repeatedly, a prepared statement executed repeatedly); every statement of a history is parsed '
+               'afresh: a tree object that an earlier planning has rewritten in place (nested selects replaced by '
+               'Parameter(Result)) is not a tree of the quantifier; column discovery (prepare_steps) is not planning: a '
+               'statement whose prepare raises is not executed and the exception is not judged here (C12 does)',
+               'the values of USING options are not judged (partition_size=0 / \'abc\' are copied into the map-reduce '
+               'step as they are: the plan is well-formed)']
 # floors hold for VERIF_SHARDS >= 4 (the random part scales with the number of shards, the exhaustive part does not)
 FLOORS = {'quick': {'__nontrivial__': 3000, 'planned': 2500, 'refused': 1400, 'src:fixed': 13000, 'src:mjoin': 840,
                     'src:free': 250, 'src:free-dml': 230, 'src:plain-dml': 120,
@@ -44,12 +63,34 @@ FLOORS = {'quick': {'__nontrivial__': 3000, 'planned': 2500, 'refused': 1400, 's
                     'stmt:Insert': 790, 'stmt:Update': 270, 'stmt:Delete': 280, 'stmt:CreateTable': 500,
                     'stmt:Union': 240, 'wrap:nested': 260, 'wrap:cte': 220, 'tag:using:partition_size': 280,
                     'cat:integrations:dicts': 560, 'cat:integrations:mixed': 270, 'cat:metadata:dict': 370,
-                    'cat:api:int2': 290, 'cat:default-ns:none': 330, 'cat:ns-via:predictor_namespace': 460},
+                    'cat:api:int2': 290, 'cat:default-ns:none': 330, 'cat:ns-via:predictor_namespace': 460,
+                    # per-model USING options: bounded list (deterministic counts) and drawn statements (rnd:)
+                    'src:fixed-part': 3500, 'tag:using:pp:prefix:name': 110, 'tag:using:pp:adjacent-models-differ': 1650,
+                    'tag:using:pp:sizes-differ': 840, 'src:part': 110, 'rnd:tag:using:pp:adjacent-models-differ': 45,
+                    'rnd:tag:using:pp:sizes-differ': 25, 'rnd:tag:using:pp:some-models-without': 40,
+                    'rnd:tag:using:pp:global+scoped': 27,
+                    # histories on one planner: bounded list and drawn histories (rnd:)
+                    'src:fixed-hist': 2500, 'hist:form:plan;plan': 700, 'hist:form:prep-exec;prep-exec-exec': 700,
+                    'hist:form:plan;prep-exec-exec': 350, 'hist:form:prep-exec;plan': 350, 'hist:form:plan;plan;plan': 350,
+                    'hist:later:shared-nested-select+ref:parameter': 1700, 'hist:re-exec': 1000,
+                    'src:hist': 240, 'rnd:hist:plans>=2': 190, 'rnd:hist:plans>=3': 95,
+                    'rnd:hist:later:shared-nested-select+ref:parameter': 35, 'rnd:hist:re-exec': 45,
+                    'rnd:hist:op:exec': 95, 'rnd:hist:plan-after-refusal': 35, 'rnd:hist:later:stmt-planned-before': 70,
+                    'rnd:hist:later:plan:partitioned': 75, 'rnd:hist:later:plan:ts': 6, 'rnd:hist:later:cte': 14,
+                    'rnd:hist:later:reads-table-named-like-earlier-cte': 2},
           'thorough': {'__nontrivial__': 60000, 'planned': 40000, 'refused': 20000, 'src:fixed': 140000,
                        'plan:plan:partitioned': 6000, 'plan:plan:ts': 2500, 'plan:plan:ts-grouped': 2000,
                        'plan:container:MultipleSteps': 300, 'plan:ref:parameter': 10000, 'plan:ref:held-step': 12000,
                        'stmt:Insert': 12000, 'stmt:Update': 4000, 'stmt:Delete': 4000, 'stmt:CreateTable': 8000,
-                       'cat:integrations:dicts': 8000, 'cat:metadata:dict': 5500}}
+                       'cat:integrations:dicts': 8000, 'cat:metadata:dict': 5500,
+                       'src:fixed-part': 20000, 'tag:using:pp:prefix:name': 650, 'tag:using:pp:adjacent-models-differ': 11000,
+                       'src:part': 1100, 'rnd:tag:using:pp:adjacent-models-differ': 450, 'rnd:tag:using:pp:sizes-differ': 250,
+                       'src:fixed-hist': 3600, 'hist:later:shared-nested-select+ref:parameter': 1800,
+                       'src:hist': 2400, 'rnd:hist:plans>=2': 1900, 'rnd:hist:plans>=3': 950,
+                       'rnd:hist:later:shared-nested-select+ref:parameter': 350, 'rnd:hist:re-exec': 450,
+                       'rnd:hist:plan-after-refusal': 350, 'rnd:hist:later:stmt-planned-before': 700,
+                       'rnd:hist:later:plan:partitioned': 750, 'rnd:hist:later:plan:ts': 60, 'rnd:hist:later:cte': 140,
+                       'rnd:hist:later:reads-table-named-like-earlier-cte': 20}}
 N = {'quick': 1200, 'thorough': 20000}
 
 KINDS = ('internal-error', 'numbering', 'forward-ref', 'dangling-ref', 'bad-sub-ref', 'foreign-step', 'bad-ref',
@@ -112,6 +153,9 @@ def _selftest():
         (good, 'Insert', ['wrong-last-step']),
         ([], 'Select', ['empty-plan']),
         ([fetch(), part(Result(0), [join(Result(0), Result('1_1')), fetch()], 1)], 'Select', ['forward-ref']),
+        ([fetch(), part(Result(0), [S.ApplyPredictorStep('p', Identifier('m'), Result(0)), join(Result(0), Result('1_0'))], 1),
+          part(Result('1_1'), [S.ApplyPredictorStep('p', Identifier('m2'), Result('1_1')),
+                               join(Result(1), Result('2_0'))], 2)], 'Select', ['bad-sub-ref']),
         ([S.FetchDataframeStep(integration='i', query=Select(
             targets=[Star()], from_table=Identifier('t'),
             where=BinaryOperation('in', args=[Identifier('a'), Parameter(Result(1))]))), fetch()], 'Select',
@@ -454,6 +498,8 @@ def judge(case, col):
     classes += ['tag:' + t for t in meta.get('tags', []) if t.startswith(('using', 'ts:', 'where:', 'target:sub'))]
     if injected:
         classes.append('injected-data')
+    if case.get('src') == 'part':
+        classes += ['rnd:' + c for c in classes if c.startswith('tag:using:pp')]
     cf = case_features(tree, kw, stmt)
     cte = has_cte(tree)
     needed = main_query_tables(tree)      # before planning: the planner rewrites the tree
@@ -532,6 +578,11 @@ def judge_history(case, col):
         out.append(findings.record(kind, site, sorted(feats), cfg,
                                    f'plan #{nplans + 1} of one planner, after [{"; ".join(trail[:-1])[:300]}]: {detail}', sql))
 
+    def remember(c):
+        earlier_subs.update(c['subs'])
+        earlier_ctes.update(c['ctes'])
+        earlier_sql.add(c['sql'])
+
     for op in ops:
         kind = op['op']
         if kind in ('plan', 'prepare'):
@@ -586,11 +637,12 @@ def judge_history(case, col):
         except (PlanningException, NotImplementedError) as e:
             classes.add('refused')
             refused_before = True
-            earlier_sql.add(sql)
+            remember(cur)         # a statement refused half-way has been seen by the planner too
             continue
         except Exception as e:
             classes.add('internal-error')
             fail('internal-error', site_of(e), set(cur['cf']) | hf, f'{type(e).__name__}: {str(e)[:300]}', sql)
+            remember(cur)
             continue
         viol, info = check_plan(plan, cur['stmt'], exempt_sink=cur['cte'], needed_tables=cur['needed'])
         pf = info['features']
@@ -618,9 +670,10 @@ def judge_history(case, col):
         if len(sample_steps) < 4:
             sample_steps.append([type(s_).__name__ for s_ in plan.steps])
         nplans += 1
-        earlier_subs |= cur['subs']
-        earlier_ctes |= cur['ctes']
-        earlier_sql.add(sql)
+        remember(cur)
+    if src == 'hist':
+        # the drawn histories are counted apart from the bounded list (vacuity guards of the random part)
+        classes |= {'rnd:' + c for c in classes if c.startswith('hist:')}
     col.case(key, nontrivial, sorted(classes), {'ops': [dict(o, sql=o['sql'][:200]) if 'sql' in o else o for o in ops],
                                                 'plans': sample_steps})
     return out
